@@ -734,8 +734,8 @@ fn main() {
     }
 
     // F. random rounds on top
-    let rounds = ctx.scale(40, 30000, 200000);
-    let nmax = ctx.scale(130, 6000, 40000);
+    let rounds = ctx.scale(40, 30000, 600000);
+    let nmax = ctx.scale(130, 6000, 60000);
     for r in 0..rounds {
         let mut g = ctx.rng(r as u64);
         let n = match g.random_range(0..10) {
